@@ -319,6 +319,15 @@ func c03Handwritten() []string {
 		Lines(Fun("f", B["len"], " "+Print(B["len"]+"(10)")+" "), Fun("sq", "v", " "+Ret("v * v")+" "), "f(sq);", Print(BI("len", "[1]"))),
 		Lines(Fun("f", B["len"], " "+Print(B["len"])+" "+Print(B["len"]+"([1, 2])")+" "), Print(`"b"`), "f(3);"),
 		Lines(Fun("outer", B["max"], " "+Fun("inner", "", " { "+Ret(B["max"]+"(1, 2)")+" } ")+" "+Ret("inner()")+" "), Fun("pick", "a, b", " "+Ret("a")+" "), Print("outer(pick)"), Print(BI("max", "1", "2"))),
+		// a parameter spelled like the function itself is the parameter, not the function
+		Lines(Fun("f", "f", " "+Print("f")+" f = f + 1; "+Ret("f")+" "), Print("f(41)"), Print("f(1)")),
+		Lines(Fun("apply", "apply, v", " "+Ret("apply(v)")+" "), Fun("inc", "x", " "+Ret("x + 1")+" "), Print("apply(inc, 1)"), Print("apply(inc, 5)")),
+		Lines(Fun("g", "g", " { "+Fun("h", "", " "+Ret("g * 2")+" ")+" "+Ret("h()")+" } "), Print("g(21)")),
+		// closures made by the same declaration in different scopes keep their own scope, also when
+		// an earlier one is used after a later one was created
+		Lines(Fun("mk", "n", " "+Fun("get", "", " n = n + 1; "+Ret("n")+" ")+" "+Ret("get")+" "), Var("c1", "mk(10)"), Var("c2", "mk(20)"), Print("c1()"), Print("c2()"), Print("c1()"), Var("c3", "mk(30)"), Print("c1()"), Print("c3()"), Print("c2()")),
+		Lines(Fun("walk", "d", " "+Fun("me", "", " "+Ret("d")+" ")+" "+If("d < 2", "walk(d + 1);")+" "+Print("me()")+" "), "walk(0);"),
+		Lines(Var("fs", "[nil, nil, nil]"), For(Var("i", "0"), "i < 3", "i = i + 1", "{ "+Var("loc", "i * 10")+" "+Fun("rd", "", " "+Ret("loc")+" ")+" fs[i] = rd; }"), Print("fs[0]()"), Print("fs[1]()"), Print("fs[2]()")),
 		// nested function scopes, then globals
 		Lines(Var("a", "1"), Fun("f", "", " "+Var("b", "2")+" "+Fun("g", "", " "+Var("c", "3")+" "+Print("a + b + c")+" a = a + 1; b = b + 1; ")+" g(); g(); "+Print("b")+" "), "f();", Print("a")),
 		// declaration initialiser sees the outer binding of the same name
